@@ -58,12 +58,15 @@ pub fn try_sign_file(data: &str) -> Option<String> {
 
 /// Verifies the signature in a signed file.
 pub fn is_valid_signature(data: &str) -> bool {
-    if let Some(mat) = RE.find(data) {
-        let actual = &data[mat.start() + 25..mat.end() - 2];
-        let unsigned = RE.replace(data, SIGNING_TOKEN);
-        return hash(&unsigned) == actual;
-    }
-    false
+    // `sign` replaces every token with the same signature, so undo exactly that:
+    // a candidate signature is valid if putting the token back in all of its
+    // occurrences yields content with that hash. (Other, unrelated
+    // `SignedSource<<...>>` text in the file is part of the signed content.)
+    RE.captures_iter(data).any(|captures| {
+        let actual = &captures[1];
+        let unsigned = data.replace(&format!("SignedSource<<{actual}>>"), NEWTOKEN);
+        hash(&unsigned) == actual
+    })
 }
 
 #[cfg(test)]
